@@ -146,6 +146,12 @@ func c02Check(c *run.Ctx, st *c02State, b []byte, family string, salt uint64) []
 	// (iii) Renderer over the recording rasterizer
 	w, h := 1+int(salt%64), 1+int((salt>>8)%64)
 	rect := image.Rect(3, 5, 3+w, 5+h)
+	switch (salt >> 16) % 16 {
+	case 0:
+		rect = image.Rectangle{} // an empty target: the scale is zero
+	case 1:
+		rect = image.Rect(7, 7, 7, 7+h) // zero width only
+	}
 	st.rz.ResetLog()
 	st.rz.Discard = true
 	st.rz.OnDraw = func(src image.Image) {
